@@ -14,6 +14,9 @@ CLAIMS = {
  "C14": dict(technique=LEAN + "; fuel-indexed decoder loops, induction over field lists; independent spec encoder",
    text="Theorems in Props/C14: decode(encode(x)) = x for amounts (all of Option Int), role lists, metadata and token data (all values within Go's length limits); size = length for the amount codec; encoded bytes equal an independently written protobuf writer over documented field numbers (1–5 / 1 / 1–7) and the sign‖big-endian-minimal amount format. Tie: byte-for-byte comparison with the generated Marshal/Size/Unmarshal on exhaustive small buffers, boundary values and mutated encodings (~70k ops per quick run).",
    note=TB + " Decoders cannot panic in the model by construction (total functions); absence of panics in the generated Go code is observed, not proved."),
+ "C17": dict(technique=LEAN + "; simulation between faulted and unfaulted runs, compositional over the execution monad",
+   text="Theorem C17.fault_never_ok: for all 23 functions, inputs and pre-states, if the unfaulted run succeeds with n counted dependency calls then for every k < n the run in which the k-th call fails returns an error; fault_unreached_same / fault_keeps_errors complete the picture. Proved compositionally (FaultSim for every primitive, helper and function). Tie (this gives the model's call structure teeth): the harness wraps every injected dependency, records the dependency trace of every op and fails the k-th call for every k; traces (kind letters) and outcomes must equal the model's.",
+   note=TB + " Storage reads and the pause lookup are fail-soft by interface design and are not counted, as the property states."),
  "C18": dict(technique=LEAN + "; kernel-decided facts regenerated from the real factory",
    text="Theorems in Props/C18: the activation flag after any notification sequence equals (last epoch ≥ activation) — regressions and repeats included; exactly three functions are gated; the key set of the container built by the real factory (regenerated on every run) is the 23 protocol names and each is bound to the implementing type. Tie: exhaustive epoch sequences ≤ 4 over {0,1,2,3,2^32−1} × activation epochs on the real code vs the model (111k ops).",
    note=TB),
@@ -23,4 +26,4 @@ CLAIMS = {
 }
 
 PENDING = "not claimed yet in this revision: model and correspondence exist, property theorems are being written (see DESIGN §9 change log)"
-NOT_APPLICABLE = {p: PENDING for p in ["C01","C02","C03","C04","C05","C07","C08","C09","C10","C11","C13","C15","C16","C17","C19"]}
+NOT_APPLICABLE = {p: PENDING for p in ["C01","C02","C03","C04","C05","C07","C08","C09","C10","C11","C13","C15","C16","C19"]}
